@@ -167,9 +167,9 @@ func (h appHarness) Gen(r *verifsim.SplitMix, tier string, idx int) any {
 		// single files, base names repeating across them
 		sp.Scenario = "honest"
 		sp.Files = nil
-		names := []string{"x.bin", "y.bin", "x.bin", "data", "a b.txt"}
+		names := []string{"x.bin", "y.bin", "x.bin", "data", "a b.txt", "1_x.bin", "2_data"}
 		size := func() int { return []int{0, 1, sp.Chunk - 1, sp.Chunk, 2*sp.Chunk + 3, 7 * sp.Chunk}[r.Intn(6)] }
-		for _, d := range []string{"da", "db", "dc/da"} {
+		for _, d := range []string{"da", "db", "dc/da", "dd/1_da"} {
 			if r.Chance(2, 3) {
 				sp.Sel = append(sp.Sel, d)
 				for i, n := 0, 1+r.Intn(3); i < n; i++ {
@@ -935,37 +935,52 @@ func (h appHarness) Run(spec any) (res verifsim.RunResult) {
 			// a named directory are kept; nothing else arrives. Contents are unique per source
 			// path, so each received file is matched with the one source file it must be.
 			used := map[string]bool{}
-			for _, f := range sp.Files {
-				b := appContent(sp.ContentSeed, f.P, f.N)
-				hv := fmt.Sprintf("%d:%x", len(b), sha256.Sum256(b))
-				tail := ""
-				for _, e := range sp.Sel {
-					if f.P == e {
-						tail = filepath.Base(e)
-					} else if strings.HasPrefix(f.P, e+"/") {
-						tail = filepath.Base(e) + strings.TrimPrefix(f.P, e)
-					}
-				}
-				found := false
-				for k, g := range got {
-					if used[k] || g != hv {
+			matched := map[string]bool{}
+			// two passes: names that arrived exactly as expected first, then names with an
+			// ordinal in front (equal contents - empty files - would otherwise be paired wrongly)
+			for pass := 0; pass < 2; pass++ {
+				for _, f := range sp.Files {
+					if matched[f.P] {
 						continue
 					}
-					top := k
-					if i := strings.IndexByte(k, '/'); i >= 0 {
-						top = k[:i]
+					b := appContent(sp.ContentSeed, f.P, f.N)
+					hv := fmt.Sprintf("%d:%x", len(b), sha256.Sum256(b))
+					tail := ""
+					for _, e := range sp.Sel {
+						if f.P == e {
+							tail = filepath.Base(e)
+						} else if strings.HasPrefix(f.P, e+"/") {
+							tail = filepath.Base(e) + strings.TrimPrefix(f.P, e)
+						}
 					}
-					stripped := k
-					if j := strings.IndexByte(top, '_'); j > 0 && strings.Trim(top[:j], "0123456789") == "" {
-						stripped = k[j+1:]
+					var keys []string
+					for k := range got {
+						keys = append(keys, k)
 					}
-					if k == tail || stripped == tail {
-						used[k], found = true, true
-						break
+					sort.Strings(keys)
+					for _, k := range keys {
+						if used[k] || got[k] != hv {
+							continue
+						}
+						if pass == 0 {
+							if k == tail {
+								used[k], matched[f.P] = true, true
+								break
+							}
+							continue
+						}
+						top := k
+						if i := strings.IndexByte(k, '/'); i >= 0 {
+							top = k[:i]
+						}
+						if j := strings.IndexByte(top, '_'); j > 0 && strings.Trim(top[:j], "0123456789") == "" && k[j+1:] == tail {
+							used[k], matched[f.P] = true, true
+							break
+						}
 					}
-				}
-				if !found {
-					d = append(d, "missing or wrong "+f.P+" (expected as "+tail+")")
+					if pass == 1 && !matched[f.P] {
+						d = append(d, "missing or wrong "+f.P+" (expected as "+tail+")")
+					}
 				}
 			}
 			for k := range got {
